@@ -224,12 +224,19 @@ _CONTAINER = (dict, list, set, np.ndarray)
 _SCALAR = (bool, int, float, str, type(None), np.generic)
 
 
+_UXM = [0, None]
+
+
 def _ux_modules():
-    return sorted(
-        (n, m)
-        for n, m in sys.modules.items()
-        if (n == "uxarray" or n.startswith("uxarray.")) and m is not None
-    )
+    # re-scan only when modules were imported since the last call
+    if _UXM[1] is None or _UXM[0] != len(sys.modules):
+        _UXM[1] = sorted(
+            (n, m)
+            for n, m in list(sys.modules.items())
+            if (n == "uxarray" or n.startswith("uxarray.")) and m is not None
+        )
+        _UXM[0] = len(sys.modules)
+    return _UXM[1]
 
 
 def _module_items(mod):
